@@ -12,8 +12,8 @@ import types
 LEVEL = "proof"
 MANIFEST_ENTRY = {
     "category": "proof",
-    "text": "Lean 4 theorems at ℝ about the *translated* aberration code (Python ast → Lean on every run): the polar series equals the spec χ=(2π/λ)Σ α^{n+1}/(n+1)·C_nm cos(m(φ−φ_nm)) over the 14-entry (n,m) table covering all 25 symbols; Σ cart_l·basis_l = χ with cart = polar_to_cartesian(polar); Cartesian→polar→Cartesian is the identity on all 25 labels and polar→Cartesian→polar returns the coefficients for C>0, mφ∈(−π,π] (otherwise still the identical surface); merge adds the deltas' basis expansion; dchi_dk = λ·∂χ/∂α, α·dchi_dphi = λ·∂χ/∂φ (HasDerivAt), and — chain rule through the source's own polar coordinates k=sqrt(x²+y²), φ=atan2(y,x), branch cut handled by 2π-periodicity — (dchi_dx, dchi_dy) = λ·∇_{x,y}χ at every point but the origin; guard blocks vanish when their keys are 0; 'defocus' ↦ C10 = −defocus in all three alias implementations for every input dict (induction over the dict) and other aliases carry no sign; fit round trip END TO END on the model: lateral shifts of a quadratic coefficient set are basis@(R_{−θ}·A) at every pixel, a full-column-rank basis has non-zero Gram determinant so the normal equations recover the matrix exactly, the polar decomposition of a real 2×2 matrix is unique (closed form polar2 returns the factors of ANY M=U·P with UᵀU=1, P symmetric positive definite), and the extraction (wrap/sign-flip branch included) returns (C10,C12,φ12,θ) for |θ|<π/2, |C10|>C12>0, φ12∈(−π/2,π/2]. Float correspondence of every generated definition, the alias models and the fit model against the real torch code; autograd/consistency predicates on the real code as failing-input search.",
-    "note": "Trusted: Lean kernel + propext/Classical.choice/Quot.sound; the translator (validated by the correspondence on the same functions); IEEE rounding and torch are outside the theorems. Measured only (fit stream): that torch.linalg.lstsq solves the least-squares problem and that torch.linalg.svd returns a correct SVD (then _torch_polar is a polar decomposition and polar_decomposition_unique makes it equal to the model's closed form); fit_roundtrip is about lstsq2 (normal equations) and polar2. Labels outside the 25-label table (e.g. 'C77_a') are outside the model. The gradient theorems are partial derivatives along x and y (HasDerivAt), not a joint Fréchet derivative.",
+    "text": "Lean 4 theorems at ℝ about the *translated* source (Python ast → Lean partial evaluator, regenerated from the repo on every run): the polar series equals the spec χ=(2π/λ)Σ α^{n+1}/(n+1)·C_nm cos(m(φ−φ_nm)) over the 14-entry (n,m) table = all 25 symbols; each symbol individually (single_symbol, every_symbol_contributes) in surface AND gradients; the `if any(k in coefs…)` guards, translated faithfully with a presence predicate, are transparent for every set of present keys (guards_transparent) and list every symbol (guard_complete); Σ cart_l·basis_l = χ with cart = polar_to_cartesian(polar); the basis loop translated over a DYNAMIC label list returns column i = basis function of labels[i] for every list (basis_column_order); Cartesian→polar→Cartesian is the identity on all 25 labels, polar→Cartesian→polar returns the coefficients for C>0, mφ∈(−π,π] and otherwise still the identical surface; merge adds the deltas' basis expansion; dchi_dk = λ·∂χ/∂α, α·dchi_dphi = λ·∂χ/∂φ and (dchi_dx, dchi_dy) = λ·∇_{x,y}χ through the source's own sqrt/atan2 polar coordinates at every point but the origin (generated aberration_surface_cartesian_gradients, branch cut via 2π-periodicity); the key/value loop bodies of the three alias implementations, translated, equal the hand model's steps for every key/value (alias_steps_are_translated, defocus_sign_in_source) and 'defocus' ↦ C10 = −defocus for every input dict by induction; the fit END TO END: _passively_rotate_grid, polar_coordinates, _torch_polar (on an abstract svd meeting its spec) and the whole extraction part of fit_aberrations_from_shifts are translated; lateral shifts of a quadratic set are basis@(R_{−θ}·A) at every pixel; a full-column-rank basis has non-zero Gram determinant and the normal equations return the matrix; the translated _torch_polar returns the RIGHT polar factor = the unique polar decomposition (torch_polar_is_polar, polar_decomposition_unique); the translated extraction returns (C10,C12,φ12,θ) for every |θ|<π/2 together with every C12>0, |C10|>C12, φ12∈(−π/2,π/2] (fit_roundtrip_translated_polar). Float correspondence of every generated definition (guards and dynamic label lists included), the alias models and the fit against the real torch code; autograd/consistency predicates on the real code as failing-input search.",
+    "note": "Trusted: Lean kernel + propext/Classical.choice/Quot.sound; the translator (validated by the correspondence on the same functions); IEEE rounding and torch are outside the theorems. Hand-modelled and only tied by correspondence: torch.linalg.lstsq (as normal equations), torch.linalg.svd (abstract, assumed to meet IsSVD), the k-grid/mask plumbing of the fit (pinned to a template by the translator) and of _return_lateral_shifts (fftfreq grid, `/2/np.pi`), the plumbing around the alias loops (key validation, nested-dict recursion, zero fill, float32 conversion). Labels outside the 25-label table (e.g. 'C77_a') are outside the model. Gradient theorems are partial derivatives (HasDerivAt), not a joint Fréchet derivative.",
     "technique": "Lean 4 proof over translator output (Python ast → Lean, regenerated every run) + model-vs-implementation Float correspondence + autograd/consistency predicates on the real code",
 }
 RULE = ("a case is one coefficient set evaluated at several (α,φ) points (formula stream), one input dict for one alias "
@@ -23,9 +23,10 @@ RULE = ("a case is one coefficient set evaluated at several (α,φ) points (form
 TRUSTED = ["harness/translator/aberr2lean.py (partial evaluator, grammar in its docstring); cross-checked by the Float correspondence on every translated function",
            "torch elementwise kernels, torch.linalg.lstsq/svd, torch autograd (the gradient oracle of the failing-input search)"]
 ASSUMPTIONS = ["float `1/3`, `0.5`, … in the source are read as exact rationals in the ℝ theorems (IEEE rounding is measured, not proved)",
-               "`if any(k in coefs …)` guards are emitted unguarded; sound because the translator checks that a guarded body reads only guard keys with default 0 and `guard_sound` proves each body is 0 at 0",
+               "`if any(k in coefs …)` guards are emitted both unguarded and faithfully (`…_guarded`, run by the driver); guards_transparent proves the two agree for every set of present keys when absent keys read 0",
+               "alias loop bodies are translated by evaluating them on the finite key universe (all symbols and aliases) plus one sentinel for any other key; sound because the translator rejects any use of the key other than ==, `in`, table lookup and dict store",
                "remainder(x, 2π) in fit_aberrations_from_shifts is modelled on [-2π, 4π) only; remainder_model_exact proves the model equals x−⌊x/y⌋y there and that both call sites stay inside that range",
-               "_torch_polar (SVD route) is modelled by the closed form P=√(MᵀM), U=MP⁻¹ for non-singular M; polar_decomposition_unique proves any correct polar decomposition equals it, correctness of torch.linalg.svd is measured",
+               "_torch_polar is translated on top of an abstract svd; torch_polar_is_polar proves it equals the closed form polar2 (run by the driver) for any svd meeting its specification; correctness of torch.linalg.svd is measured",
                "torch.linalg.lstsq is modelled by the normal equations (lstsq_exact: exact for a full-column-rank basis); agreement is measured",
                "ProbeBase.probe_params setter and DirectPtychography._return_lateral_shifts are called on attribute stubs (the real function objects, no dataset needed)",
                "fit identifiable domain used by the generator: |θ| ≤ 0.47π, |C10| ≥ 1.5·C12 > 0, φ12 ∈ (−π/2, π/2], ≥ 6 bright-field pixels spanning rank 2, only C10/C12/phi12 non-zero"]
